@@ -63,26 +63,65 @@ class Suite:
                                      shard_size=self.shard_size)
         return observeds, res
 
-    def shrink(self, workdir, inp, eval_name, max_rounds=60):
-        """ greedy one-step shrinking driven by the Coq oracle `eval_name` """
+    def shrink(self, workdir, inp, eval_name, max_rounds=12):
+        """ shrinking driven by the Coq oracle `eval_name`: each round evaluates all candidates of the current
+        input in one batch and keeps the smallest failing one (candidates should include big cuts first) """
         cur = inp
-        for rnd in range(max_rounds):
-            cands = self.shrink_candidates(cur)
-            if not cands:
-                break
-            wd = os.path.join(workdir, f'shrink_{rnd}')
-            try:
-                _, res = self.evaluate(wd, cands)
-            except BuildError:
-                break
-            finally:
-                pass
-            hits = res.get(eval_name, [])
-            shutil.rmtree(wd, ignore_errors=True)
-            if not hits:
-                break
-            cur = cands[hits[0]]
+        saved = self.evals
+        self.evals = {eval_name: saved[eval_name]}
+        try:
+            for rnd in range(max_rounds):
+                cands = self.shrink_candidates(cur)
+                if not cands:
+                    break
+                cands = sorted(cands, key=self.size_of)[:120]
+                wd = os.path.join(workdir, f'shrink_{rnd}')
+                try:
+                    _, res = self.evaluate(wd, cands)
+                except BuildError:
+                    break
+                hits = res.get(eval_name, [])
+                shutil.rmtree(wd, ignore_errors=True)
+                if not hits:
+                    break
+                cur = cands[hits[0]]
+        finally:
+            self.evals = saved
         return cur
+
+    def size_of(self, inp):
+        try:
+            return len(inp)
+        except TypeError:
+            return 0
+
+
+def list_cuts(ops):
+    """ generic shrink candidates for a list of operations: prefixes (geometric), halves/quarters removed,
+    single removals """
+    n = len(ops)
+    out = []
+    k = 1
+    while k < n:
+        out.append(ops[:k])
+        k *= 2
+    for parts in (2, 4, 8):
+        size = max(n // parts, 1)
+        for start in range(0, n, size):
+            cut = ops[:start] + ops[start + size:]
+            if cut and len(cut) < n:
+                out.append(cut)
+    if n <= 40:
+        out.extend(ops[:k] + ops[k + 1:] for k in range(n) if n > 1)
+    else:
+        out.extend(ops[:k] + ops[k + 1:] for k in range(max(n - 20, 0), n))
+    seen, uniq = set(), []
+    for c in out:
+        key = repr(c)
+        if key not in seen:
+            seen.add(key)
+            uniq.append(c)
+    return uniq
 
 
 def parse_make_failure(output):
@@ -118,8 +157,8 @@ def run_property(prop, argv):
     seed = int(os.environ.get('VERIF_SEED', '20260923'))
     if args.replay:
         return replay(prop, args.replay)
-    t0 = time.perf_counter()
     lock = common.lock_build()
+    t0 = time.perf_counter()   # wall time of the check itself, not of waiting for another check's lock
     workdir = os.path.join(common.BUILD, f'run-{prop.ID}-{os.getpid()}')
     shutil.rmtree(workdir, ignore_errors=True)
     os.makedirs(workdir)
